@@ -180,7 +180,7 @@ def p_contention(thorough=False, H=8, timeout=120):
                 ws = []
                 for w in range(nW):
                     if w == 0:
-                        wk = {"skills": {str(i): "$s0%d" % i for i in range(3)}, "abs": ["$a0"], "cost": 1}
+                        wk = {"skills": {str(i): "$s0%d" % i for i in range(3)}, "abs": (["$a0", "$a0b"] if (sname == "indep" and rule == 0 and fix is None) else ["$a0"]), "cost": 1}
                     elif w == 1:
                         wk = {"skills": {"0": 1, "1": 1, "2": 1}}
                     else:
@@ -200,6 +200,8 @@ def p_contention(thorough=False, H=8, timeout=120):
                 params = [["w%d" % i, 1, 2 if (not thorough or nW == 3) else 3] for i in range(3)] + [["s0%d" % i, 0, 2] for i in range(3)] + [["a0", -1, 2]]
                 if nW == 3:
                     params += [["s22", 0, 2], ["a2", -1, 1 if thorough else -1]]
+                if sname == "indep" and rule == 0 and fix is None:
+                    params += [["a0b", -1, 1]]  # listed after a0 and possibly smaller: the list need not be sorted
                 obs.append({"name": "cont/%s/rule=%d/solo=%s/fix=%s/teams=%s" % (sname, rule, solo, fix, teams), "harness": "sim",
                             "cube": {"spec": spec}, "params": params, "timeout": timeout})
     return obs
@@ -212,7 +214,7 @@ def p_facility(thorough=False, H=8, timeout=120):
     layouts = ["1wp2f", "2wp"]
     for layout in layouts:
         for fsk in ("all", "w0f0-only"):
-            for solo_f in (False, True):
+            for solo_f in (False, True, "worker"):
                 for fixf in (None, "t0:f1", "t0:f1+w1"):
                     for mixed in (False, True):
                         tasks = [{"w": "$w0", "nf": True, "comp": 0}, {"w": "$w1", "nf": (not mixed), "comp": 1}]
@@ -222,11 +224,11 @@ def p_facility(thorough=False, H=8, timeout=120):
                             tasks[0]["fixw"] = [1]
                         if layout == "1wp2f":
                             wps = [{"targets": [0, 1], "cap": "$cap", "facs": [
-                                {"skills": {"0": "$f00", "1": 1}, "solo": solo_f, "abs": ["$fa0"]},
+                                {"skills": {"0": "$f00", "1": 1}, "solo": solo_f is True, "abs": ["$fa0"]},
                                 {"skills": {"0": 1, "1": "$f11"}}]}]
                             nf = 2
                         else:
-                            wps = [{"targets": [0, 1], "cap": "$cap", "facs": [{"skills": {"0": "$f00", "1": 1}, "solo": solo_f, "abs": ["$fa0"]}]},
+                            wps = [{"targets": [0, 1], "cap": "$cap", "facs": [{"skills": {"0": "$f00", "1": 1}, "solo": solo_f is True, "abs": ["$fa0"]}]},
                                    {"targets": [0, 1], "cap": 1, "facs": [{"skills": {"0": 1, "1": "$f11"}}]}]
                             nf = 2
                         for t in tasks:
@@ -238,10 +240,15 @@ def p_facility(thorough=False, H=8, timeout=120):
                             fs0 = {"0": 1}
                             fs1 = {"0": 0, "1": 1}
                         ws = [{"skills": {"0": "$s00", "1": 1}, "fskills": fs0}, {"skills": {"0": 1, "1": 1}, "fskills": fs1, "abs": ["$a1"]}]
+                        if solo_f == "worker":
+                            # worker 1 works solo and has the larger skill sum (served second under the SSP worker rule)
+                            ws[1] = {"skills": {"0": 2, "1": 2}, "fskills": fs1, "abs": ["$a1"], "solo": True}
+                            for t in tasks:
+                                t["wrule"] = 0
                         spec = {"tasks": tasks, "edges": [], "teams": [_team(ws, [0, 1])], "wps": wps,
                                 "comps": [{"size": 1}, {"size": 1}], "run": {"max_time": H}}
                         params = [["w0", 1, 3 if thorough else 2], ["w1", 1, 2], ["s00", 0, 2], ["f00", 0, 2], ["f11", 0, 2], ["cap", 1, 2], ["fa0", -1, 1], ["a1", -1, 1]]
-                        obs.append({"name": "fac/%s/fsk=%s/solof=%d/fixf=%s/mixed=%d" % (layout, fsk, solo_f, fixf, mixed), "harness": "sim",
+                        obs.append({"name": "fac/%s/fsk=%s/solof=%d/fixf=%s/mixed=%d" % (layout, fsk, {False: 0, True: 1, "worker": 2}[solo_f], fixf, mixed), "harness": "sim",
                                     "cube": {"spec": spec}, "params": params, "timeout": timeout})
     return obs
 
@@ -483,6 +490,7 @@ def _obligations_for(prop, tier):
             obs += p_absence(kinds=(0, 1, 2, 3), flags=(False, True))
             obs += p_rules(rules=(0, 4, 5))
             obs += p_double_edges(2)
+            obs += with_history(wf_cubes(3, ["private"], 2, name="kinds", edge_sets=[[(0, 1), (1, 2)], [(0, 1), (0, 2)]], kinds=(0, 1)), "after-backward", 1)
         else:
             obs = wf_cubes(3, ["private", "shared2"], 3, name="kinds", H=12, timeout=900)
             obs += p_double_edges(3)
@@ -497,6 +505,7 @@ def _obligations_for(prop, tier):
         obs = p_contention(thorough, H=12 if thorough else 8, timeout=900 if thorough else 150)
         obs += p_facility(thorough, H=12 if thorough else 8, timeout=900 if thorough else 150)
         if prop == "C03":
+            obs += with_history([ob for ob in p_contention(thorough, H=12 if thorough else 8, timeout=900 if thorough else 150) if "/rule=0/" in ob["name"] and "solo=None" in ob["name"] and "fix=None" in ob["name"]], "resume", 3)
             fj = [ob for ob in p_facility(thorough, H=12 if thorough else 8, timeout=900 if thorough else 150) if "fsk=all" in ob["name"] and "fixf=None" in ob["name"]]
             obs += with_history(fj, "json-resume", 4, {"f11": (1, 1), "a1": (-1, -1), "fa0": (-1, 0), "s00": (1, 2), "f00": (1, 2), "w0": (2, 3), "w1": (1, 2), "cap": (1, 2)})
         if prop == "C06":
@@ -516,6 +525,12 @@ def _obligations_for(prop, tier):
         return obs
     if prop == "C12":
         obs = wf_cubes(3, ["shared2", "private"], 3, kinds=(0,), name="fs", timeout=600 if thorough else 150, H=12)
+        obs += with_history(wf_cubes(3, ["shared2"], 2, kinds=(0,), name="fs", timeout=600 if thorough else 150, H=12, edge_sets=[[(0, 1), (0, 2)], [(0, 2)], [(0, 1)]],
+                                     extra_task=lambda i: {"due": (0, 2, 1)[i]}), "after-backward-due", 1)
+        rev = wf_cubes(3, ["shared2"], 2, kinds=(0,), name="fs-listed-reversed", timeout=600 if thorough else 150, H=12)
+        for ob in rev:
+            ob["cube"] = {"spec": dict(ob["cube"]["spec"], tl_order=[2, 1, 0])}
+        obs += with_history(rev, "json-resume", 2)
         # task 1 is complete from the start (default progress 1)
         obs += wf_cubes(3, ["shared2"], 3, kinds=(0,), name="fs-done1", timeout=600 if thorough else 150, H=12, extra_task=lambda i: ({"g": 2} if i == 1 else {}))
         four = [es for es in all_edge_sets(4)]
@@ -531,6 +546,7 @@ def _obligations_for(prop, tier):
         pj = [ob for ob in p_product("F1", thorough, timeout=900 if thorough else 150) if "wprule=0" in ob["name"] or thorough]
         obs += with_history(pj, "json-resume", 3, {"fs0": (1, 1), "fs1": (1, 1), "z0": (1, 2), "z1": (1, 1)})
         obs += [ob for ob in p_facility(thorough, timeout=900 if thorough else 150) if "2wp" in ob["name"] and "fsk=all" in ob["name"]]
+        obs += [ob for ob in p_product("F2", thorough, timeout=900 if thorough else 150, auto_second=True) if "wps=2" in ob["name"] and ("wprule=0" in ob["name"] or thorough)]
         return obs
     if prop == "C14":
         obs = []
@@ -541,6 +557,9 @@ def _obligations_for(prop, tier):
         return obs
     if prop == "C05":
         obs = p_feasible(thorough, timeout=900 if thorough else 150) + p_maxtime(thorough, timeout=600 if thorough else 150)
+        # a feasible project also completes when the run follows a cut run and only the state is initialised again
+        obs += with_history([ob for ob in p_feasible(thorough, timeout=900 if thorough else 150) if "/shared1/" in ob["name"] or "/chainshare/" in ob["name"]], "cut+state", 3,
+                            {"a0": (-1, -1), "pa0": (-1, -1), "s0": (1, 2), "s1": (1, 2)})
         # simulate() must return on product/facility models too (owned by C05: "simulate() always returns")
         for ob in (p_facility(thorough, timeout=900 if thorough else 150) + p_contention(thorough, timeout=900 if thorough else 150)
                    + p_resource_rules(thorough, timeout=900 if thorough else 150) + p_product("N1", thorough, timeout=900 if thorough else 150)):
